@@ -23,7 +23,11 @@ func (e *env) ownerActors() [][]byte {
 	for _, u := range e.users {
 		res = append(res, u.hash)
 	}
-	return append(res, e.holder)
+	res = append(res, e.holder)
+	if e.registrar != nil {
+		res = append(res, e.registrar)
+	}
+	return res
 }
 
 // accountingSweep: supply, balances, tokensOf, tokens (C10 clauses on accounting).
@@ -264,6 +268,16 @@ func runC10(b *runner.Batch) {
 			do(e.opRegisterTLD("org", int64(8000+r.IntN(20000))), nil, true)
 		}
 		switch {
+		case k < 9 && r.IntN(7) == 0 && e.registrar != nil:
+			// bought through a contract that passes the name on from its payment callback (seeded change C10-5)
+			buyer := runner.Pick(r, e.ownerActors()[:3])
+			if r.IntN(5) == 0 {
+				buyer = []byte{} // the registrar keeps it
+			}
+			res := do(e.opBuy(name, buyer, int64(500+r.IntN(5000))), nil, false)
+			if res.applied {
+				b.Hit("bought-through-a-re-entering-contract")
+			}
 		case k < 9:
 			owner := runner.Pick(r, e.ownerActors()[:3])
 			if r.IntN(15) == 0 {
@@ -317,7 +331,11 @@ func runC10(b *runner.Batch) {
 					users = []int{i, adm}
 				}
 			}
-			do(e.opSetAdmin(name, e.users[adm].hash), users, false)
+			if r.IntN(5) == 0 {
+				do(e.opSetAdmin(name, nil), users, false) // dismissal
+			} else {
+				do(e.opSetAdmin(name, e.users[adm].hash), users, false)
+			}
 		}
 		e.accountingSweep()
 		for _, nm := range c10Names {
